@@ -1,7 +1,9 @@
 /* Harnesses for the backend-independent XML import code (C06): the backend is the executable contract of the state API. */
-static const char *attr_pool[] = { "nbobjs", "type", "indexing", "kind", "name", "length", "value", "zz" };
+static const char *attr_pool[] = { "nbobjs", "type", "indexing", "kind", "name", "length", "value", "encoding", "zz" };
 static const char *tag_pool[] = { "info", "indexes", "u64values", "zz" };
 #define NPOOL(a) (sizeof(a) / sizeof(*(a)))
+static int honor_length;           /* get_content: 1 = a delivered content has exactly the expected length (what both backends guarantee) */
+static int content_open[2];        /* ghost: get_content succeeded on this element and close_content has not been called since */
 static unsigned attrs_left[2], children_left;      /* per element: [0] the element under import, [1] its current child */
 static struct hwloc_xml_backend_data_s bdata;
 static struct hwloc__xml_import_state_s st0;
@@ -14,7 +16,7 @@ static int v_next_attr(struct hwloc__xml_import_state_s *state, char **namep, ch
   attrs_left[which]--;
   __CPROVER_assume(k < NPOOL(attr_pool));
   *namep = (char *)attr_pool[k];
-  *valuep = verif_exact_string(XV);
+  *valuep = (k == 7 && nondet_bool()) ? (char *)"base64" : verif_exact_string(XV);      /* attr_pool[7] == "encoding" */
   verif_num_is_count = (k == 0);          /* attr_pool[0] == "nbobjs": see the number parser in the driver */
   return 0;
 }
@@ -34,13 +36,26 @@ static int v_close_tag(struct hwloc__xml_import_state_s *state) { (void)state; r
 static void v_close_child(struct hwloc__xml_import_state_s *state) { (void)state; }
 static int v_get_content(struct hwloc__xml_import_state_s *state, const char **beginp, size_t expected_length)
 {
-  (void)state; (void)expected_length;
+  unsigned which = state == &st0 ? 0 : 1;
   verif_num_is_count = 0;
   if (nondet_bool()) return -1;
+  if (honor_length) {
+    if (expected_length > XB) return -1;
+    *beginp = verif_exact_string_of(XB, expected_length);
+    content_open[which] = 1;
+    return expected_length ? 1 : nondet_bool();          /* 0: auto-closed element, empty content */
+  }
   *beginp = verif_exact_string(XB);
+  content_open[which] = 1;
   return nondet_bool() ? 1 : 0;
 }
-static void v_close_content(struct hwloc__xml_import_state_s *state) { (void)state; }
+static void v_close_content(struct hwloc__xml_import_state_s *state)
+{
+  unsigned which = state == &st0 ? 0 : 1;
+  /* API contract (private/xml.h; the nolibxml backend puts back the '<' it overwrote at the content's end): only after a get_content() that delivered something */
+  __CPROVER_assert(content_open[which], "close_content() is only called after a successful get_content() on the same element");
+  content_open[which] = 0;
+}
 
 static void mk_backend(void)
 {
@@ -48,7 +63,7 @@ static void mk_backend(void)
   bdata.get_content = v_get_content; bdata.close_content = v_close_content; bdata.msgprefix = msgprefix;
   bdata.version_major = nondet_unsigned(); bdata.version_minor = nondet_unsigned();
   st0.parent = (struct hwloc__xml_import_state_s *)0; st0.global = &bdata;
-  attrs_left[0] = XA; attrs_left[1] = 0; children_left = XC;
+  attrs_left[0] = XA; attrs_left[1] = 0; children_left = XC; content_open[0] = content_open[1] = 0; honor_length = 0;
 }
 
 /* hwloc__xml_import_distances for ANY element the backend may deliver: memory safe (every store into indexes / u64values /
@@ -62,5 +77,29 @@ void hp_xml_import_distances(void)
   r = hwloc__xml_import_distances(&topo, &bdata, &st0, hetero);
   __CPROVER_assert(r == 0 || r == -1, "returns 0 or -1");
   __CPROVER_assert(verif_add_calls <= 1, "at most one matrix is handed to the core");
+  VERIF_CANARY();
+}
+
+
+/* hwloc__xml_import_userdata for ANY attributes and content the backend may deliver, with or without an import callback,
+ * decoded or not: memory safe, the callback receives a readable buffer of the announced length, and the state API is used
+ * according to its contract (close_content only after a successful get_content) */
+static unsigned cb_calls;
+static void v_import_cb(hwloc_topology_t topology, hwloc_obj_t obj, const char *name, const void *buffer, size_t length)
+{
+  (void)topology; (void)obj;
+  if (name) (void)name[0];
+  __CPROVER_assert(length == 0 || __CPROVER_r_ok(buffer, length), "the import callback receives `length` readable bytes");
+  cb_calls++;
+}
+void hp_xml_import_userdata(void)
+{
+  static struct hwloc_topology topo; static struct hwloc_obj obj; int r;
+  VERIF_GHOSTS();
+  mk_backend(); honor_length = 1;
+  topo.userdata_import_cb = nondet_bool() ? v_import_cb : 0; topo.userdata_not_decoded = nondet_bool();
+  r = hwloc__xml_import_userdata(&topo, &obj, &st0);
+  __CPROVER_assert(r == 0 || r == -1, "returns 0 or -1");
+  __CPROVER_assert(cb_calls <= 1, "the callback is invoked at most once per element");
   VERIF_CANARY();
 }
